@@ -17,7 +17,8 @@ VARIABLES now,
           topo,     \* [nat: addr -> ext addr or "", mtu: <<a,b>> -> int, dmtu: int, node: sock -> Seq of addrs]
           us,       \* [Socks -> [open, ep, inc, rcvq, acct, nextSend, sndbuf, df, op]]
                     \*   ep = <<addr, port>> or <<>>; rcvq = Seq of datagram ids; acct = bytes accounted
-                    \*   op = pending receive operation: [style, cap] or <<>> (none)
+                    \*   op = outstanding receive operation: [style, cap, imm, tk] or <<>> (none); tk = the datagram the
+                    \*   operation has taken (its handler is posted and will report it), imm = a wait that is complete
           dg,       \* [id -> [src, from, dst, tgt, tinc, size, st]] for LIVE datagrams only
                     \*   (st \in flight / overtaken / queued); a datagram that is read or discarded
                     \*   leaves the function for good: at most once by construction
@@ -31,15 +32,16 @@ Min(a, b) == IF a <= b THEN a ELSE b
 RcvLimit == 262144          \* 256 kB receive byte account
 Overhead == 28
 
-\* aborting = receive operations aborted (cancel, close, superseded) whose handler has not run yet:
-\* Seq of their [style, cap] (the handler may still report the natural result if the operation had
-\* already completed when it was aborted)
+\* A receive takes its datagram at the moment it can: when it is issued with a datagram queued, or when a datagram
+\* arrives while it is outstanding (udp::socket reads at that moment and posts the handler).  From then on the
+\* operation is complete whatever happens before its handler runs - cancel, close, a superseding receive: the handler
+\* reports the datagram it took.  A wait-for-read likewise is complete (imm) once something was queued.
+\* aborting = receive operations no longer outstanding (cancelled, closed, superseded) whose handler has not run
+\* yet, oldest first: complete ones report their result, the others operation_aborted.
 FreshSock == [open |-> TRUE, ep |-> None, inc |-> 0, rcvq |-> <<>>, acct |-> 0, nextSend |-> 0,
-              sndbuf |-> 20000000, df |-> FALSE, op |-> None, aborting |-> <<>>, grave |-> <<>>,
+              sndbuf |-> 20000000, df |-> FALSE, op |-> None, aborting |-> <<>>,
               wop |-> FALSE]
 \* wop = a wait-for-writable is outstanding (aborted by cancel, close, or by any send_to)
-\* grave = what the receive queue held when the socket was closed with a receive outstanding: that
-\* receive may already have completed (its handler was posted) and then still reports its datagram
 
 UInit(t) == /\ now = 0 /\ topo = t
             /\ us = [s \in Socks |-> FreshSock]
@@ -96,8 +98,13 @@ Arrive(id) ==
        THEN /\ dg' = mark(drop(dg)) /\ us' = us           \* discarded: receiver closed or rebound
        ELSE IF us[t].acct + dg[id].size + Overhead > RcvLimit
        THEN /\ dg' = mark(drop(dg)) /\ us' = us           \* discarded: receive buffer full
+       ELSE IF us[t].op # None /\ us[t].op.style # "wait" /\ us[t].op.tk = None
+       THEN \* a receive is outstanding: it takes the datagram at once (handler posted)
+            /\ dg' = mark(drop(dg))
+            /\ us' = [us EXCEPT ![t].op.tk = [id |-> id, size |-> dg[id].size, from |-> dg[id].from]]
        ELSE /\ dg' = mark([dg EXCEPT ![id].st = "queued"])
-            /\ us' = [us EXCEPT ![t].rcvq = Append(@, id), ![t].acct = @ + dg[id].size]
+            /\ us' = [us EXCEPT ![t].rcvq = Append(@, id), ![t].acct = @ + dg[id].size,
+                                ![t].op = IF us[t].op # None /\ us[t].op.style = "wait" THEN [@ EXCEPT !.imm = TRUE] ELSE @]
     /\ LET ov == Older(id) IN order' = SelectSeq(order, LAMBDA x : x # id /\ x \notin ov)
     /\ UNCHANGED <<now, topo>>
 
@@ -108,53 +115,58 @@ TailDrop(id) == /\ id \in DOMAIN dg /\ dg[id].st \in {"flight", "overtaken"}
                 /\ UNCHANGED <<now, topo, us>>
 
 \* a receive operation is started (any of the three styles); cap = total buffer bytes
-\* a new receive supersedes an outstanding one, which completes with operation_aborted
+\* a new receive supersedes an outstanding one (which completes with operation_aborted unless it is already complete)
 StartRecv(s, style, cap) ==
     /\ us[s].open /\ us[s].ep # None
-    /\ us' = [us EXCEPT ![s].op = [style |-> style, cap |-> cap],
-                        ![s].aborting = IF us[s].op # None THEN Append(@, us[s].op) ELSE @]
-    /\ UNCHANGED <<now, topo, dg, order>>
-
-\* a receive completes: exactly the head datagram, cut to the buffers, whole datagram released
-\* the operation that completes: the outstanding one, or one that was aborted after it had
-\* already completed
-\* (when a receive was superseded by a new one at a moment at which it could already complete, the completion that
-\* follows belongs to the superseded one and the new one stays outstanding: both attributions are allowed)
-CurOp(s) == IF us[s].op # None THEN us[s].op ELSE Head(us[s].aborting)
-HasOp(s) == us[s].op # None \/ us[s].aborting # <<>>
-OldRecvs(s) == {i \in 1..Len(us[s].aborting) : us[s].aborting[i].style # "waitw"}
-FirstOld(s) == CHOOSE i \in OldRecvs(s) : \A j \in OldRecvs(s) : i <= j
-DropAt(q, i) == SubSeq(q, 1, i - 1) \o SubSeq(q, i + 1, Len(q))
-Recv(s, id, n, from) ==
-    /\ us[s].open /\ us[s].rcvq # <<>> /\ Head(us[s].rcvq) = id /\ HasOp(s)
-    /\ from = dg[id].from
-    /\ dg' = [i \in DOMAIN dg \ {id} |-> dg[i]]
-    /\ \/ /\ us[s].op # None /\ n = Min(dg[id].size, us[s].op.cap)
-          /\ us' = [us EXCEPT ![s].rcvq = Tail(@), ![s].acct = @ - dg[id].size, ![s].op = None]
-       \/ /\ OldRecvs(s) # {} /\ n = Min(dg[id].size, us[s].aborting[FirstOld(s)].cap)
-          /\ us' = [us EXCEPT ![s].rcvq = Tail(@), ![s].acct = @ - dg[id].size,
-                              ![s].aborting = DropAt(@, FirstOld(s))]
+    /\ LET q == us[s].rcvq
+           take == style # "wait" /\ q # <<>>
+           o == [style |-> style, cap |-> cap, imm |-> (q # <<>>),
+                 tk |-> IF take THEN [id |-> Head(q), size |-> dg[Head(q)].size, from |-> dg[Head(q)].from] ELSE None] IN
+       \* (style "sync" = a non-blocking read: it supersedes nothing and its result is reported at once)
+       /\ us' = [us EXCEPT ![s].op = IF style = "sync" THEN @ ELSE o,
+                           ![s].aborting = IF style = "sync" THEN Append(@, o)
+                                           ELSE IF us[s].op # None THEN Append(@, us[s].op) ELSE @,
+                           ![s].rcvq = IF take THEN Tail(@) ELSE @,
+                           ![s].acct = IF take THEN @ - dg[Head(q)].size ELSE @]
+       /\ dg' = IF take THEN [i \in DOMAIN dg \ {Head(q)} |-> dg[i]] ELSE dg
     /\ UNCHANGED <<now, topo, order>>
 
-\* a receive that was aborted after it had completed reports the datagram it had taken
-RecvLate(s, id, n, from) ==
-    /\ us[s].aborting # <<>> /\ us[s].op = None /\ us[s].grave # <<>>
-    /\ Head(us[s].grave).id = id /\ n = Min(Head(us[s].grave).size, Head(us[s].aborting).cap)
-    /\ from = Head(us[s].grave).from
-    /\ us' = [us EXCEPT ![s].aborting = Tail(@), ![s].grave = Tail(@)]
+\* the handlers still to run on socket s, oldest first: the no-longer-outstanding ones, then the outstanding one
+Ops(s) == us[s].aborting \o (IF us[s].op # None THEN <<us[s].op>> ELSE <<>>)
+DropAt(q, i) == SubSeq(q, 1, i - 1) \o SubSeq(q, i + 1, Len(q))
+\* remove the i-th of Ops(s)
+Without(s, i) == IF i <= Len(us[s].aborting)
+                 THEN [us EXCEPT ![s].aborting = DropAt(@, i)]
+                 ELSE [us EXCEPT ![s].op = None]
+First(S) == CHOOSE i \in S : \A j \in S : i <= j
+\* a receive handler runs with a datagram: the one its operation took, cut to its buffers
+Took(s, id) == {i \in 1..Len(Ops(s)) : Ops(s)[i].style \notin {"wait", "waitw"} /\ Ops(s)[i].tk # None /\ Ops(s)[i].tk.id = id}
+Recv(s, id, n, from) ==
+    /\ Took(s, id) # {}
+    /\ LET i == First(Took(s, id)) IN
+       /\ n = Min(Ops(s)[i].tk.size, Ops(s)[i].cap)
+       /\ from = Ops(s)[i].tk.from
+       /\ us' = Without(s, i)
     /\ UNCHANGED <<now, topo, dg, order>>
-ReadyLate(s) == /\ us[s].aborting # <<>> /\ us[s].op = None /\ Head(us[s].aborting).style = "wait"
-                /\ us[s].grave # <<>>
-                /\ us' = [us EXCEPT ![s].aborting = Tail(@)]
-                /\ UNCHANGED <<now, topo, dg, order>>
-\* readiness notification (async_wait(wait_read)): something is queued; nothing is consumed
-Ready(s) == /\ us[s].open /\ us[s].rcvq # <<>> /\ HasOp(s)
-            /\ \/ /\ us[s].op # None /\ us[s].op.style = "wait" /\ us' = [us EXCEPT ![s].op = None]
-               \/ /\ OldRecvs(s) # {} /\ us[s].aborting[FirstOld(s)].style = "wait"
-                  /\ us' = [us EXCEPT ![s].aborting = DropAt(@, FirstOld(s))]
+\* the same when the identity of the datagram cannot be read from the delivered bytes (a single byte, b0):
+\* the oldest complete receive whose datagram starts with that byte
+TookByte(s, b0) == {i \in 1..Len(Ops(s)) : Ops(s)[i].style \notin {"wait", "waitw"} /\ Ops(s)[i].tk # None
+                                            /\ Ops(s)[i].tk.id % 256 = b0 /\ Min(Ops(s)[i].tk.size, Ops(s)[i].cap) = 1}
+RecvByte(s, b0, from) ==
+    /\ TookByte(s, b0) # {}
+    /\ LET i == First(TookByte(s, b0)) IN
+       /\ (from = None \/ from = Ops(s)[i].tk.from)
+       /\ us' = Without(s, i)
+    /\ UNCHANGED <<now, topo, dg, order>>
+\* style of the operation that took datagram id (for the trace spec: which overload reports the sender)
+StyleOf(s, id) == Ops(s)[First(Took(s, id))].style
+\* readiness notification (async_wait(wait_read)): something was queued while it was outstanding; nothing is consumed
+ReadyOps(s) == {i \in 1..Len(Ops(s)) : Ops(s)[i].style = "wait" /\ Ops(s)[i].imm}
+Ready(s) == /\ ReadyOps(s) # {}
+            /\ us' = Without(s, First(ReadyOps(s)))
             /\ UNCHANGED <<now, topo, dg, order>>
 
-WaitRec == [style |-> "waitw", cap |-> 0]
+WaitRec == [style |-> "waitw", cap |-> 0, imm |-> FALSE, tk |-> None]
 StartWaitW(s) == /\ us[s].open
                  /\ us' = [us EXCEPT ![s].wop = TRUE,
                                      ![s].aborting = IF us[s].wop THEN Append(@, WaitRec) ELSE @]
@@ -178,8 +190,16 @@ Cancel(s) == /\ us' = [us EXCEPT ![s].op = None, ![s].wop = FALSE,
                                                    \o (IF us[s].wop THEN <<WaitRec>> ELSE <<>>)]
              /\ UNCHANGED <<now, topo, dg, order>>
 \* the handler of an aborted operation runs
-AbortRecv(s) == /\ us[s].aborting # <<>>
-                /\ us' = [us EXCEPT ![s].aborting = Tail(@)]
+\* (only an operation that was not complete when it was aborted reports operation_aborted)
+Incomplete(o) == o.style \notin {"waitw", "sync"} /\ o.tk = None /\ ~(o.style = "wait" /\ o.imm)
+\* a non-blocking read that found nothing
+SyncEmpty(s) == {i \in 1..Len(us[s].aborting) : us[s].aborting[i].style = "sync" /\ us[s].aborting[i].tk = None}
+WouldBlock(s) == /\ SyncEmpty(s) # {}
+                 /\ us' = [us EXCEPT ![s].aborting = DropAt(@, First(SyncEmpty(s)))]
+                 /\ UNCHANGED <<now, topo, dg, order>>
+AbortedOps(s) == {i \in 1..Len(us[s].aborting) : Incomplete(us[s].aborting[i])}
+AbortRecv(s) == /\ AbortedOps(s) # {}
+                /\ us' = [us EXCEPT ![s].aborting = DropAt(@, First(AbortedOps(s)))]
                 /\ UNCHANGED <<now, topo, dg, order>>
 
 Bind(s, ep) == /\ us[s].open /\ us[s].ep = None /\ HolderOf(ep) = {}
@@ -195,10 +215,7 @@ Close(s) == /\ dg' = [i \in {j \in DOMAIN dg : ~(dg[j].st = "queued" /\ dg[j].tg
                                                           !.aborting = (IF us[s].op # None
                                                                         THEN Append(us[s].aborting, us[s].op)
                                                                         ELSE us[s].aborting)
-                                                                       \o (IF us[s].wop THEN <<WaitRec>> ELSE <<>>),
-                                                          !.grave = IF us[s].op # None
-                                                                    THEN [k \in 1..Len(us[s].rcvq) |-> dg[us[s].rcvq[k]] @@ [id |-> us[s].rcvq[k]]]
-                                                                    ELSE <<>>]]
+                                                                       \o (IF us[s].wop THEN <<WaitRec>> ELSE <<>>)]]
             /\ UNCHANGED <<now, topo, order>>
 Open(s) == /\ ~us[s].open
            /\ us' = [us EXCEPT ![s].open = TRUE]
@@ -210,8 +227,10 @@ SetDf(s, v) == us' = [us EXCEPT ![s].df = v] /\ UNCHANGED <<now, topo, dg, order
 Advance(t) == t > now /\ now' = t /\ UNCHANGED <<topo, us, dg, order>>
 
 \* run() returned: nothing in flight, and no receive is pending on a socket with a datagram queued
+\* ... and every handler that was owed has run: no complete operation, no aborted one
 Quiescent == /\ \A i \in DOMAIN dg : dg[i].st = "queued"
              /\ \A s \in Socks : ~(us[s].op # None /\ us[s].rcvq # <<>>)
+             /\ \A s \in Socks : us[s].op # None => Incomplete(us[s].op)
              /\ \A s \in Socks : us[s].aborting = <<>> /\ ~us[s].wop
 
 -----------------------------------------------------------------------------
